@@ -19,6 +19,11 @@ EXPLANATION = (
     "false edge of ttl > 0 and otherwise now + ttl seconds.")
 ASSUMPTIONS = ["Instant arithmetic / Duration::as_secs rounding (lifetimes are rounded down to whole seconds, at least 1)",
                "merge expressions written with other combinators than or/min/max/match/Some (e.g. iterator chains) are reported as undecided (fail closed)"]
+TECHNIQUE = ("All patterns are evaluated on a normalised view of the MIR facts (vrules/lib_kad.canon): parameters by position, every "
+             "single-definition local expanded to its initialiser, closure captures by index, trivial crate-local helpers (accessors, one-comparison "
+             "predicates, one-line constructors) replaced by their bodies, private fields resolved by their type, comparisons normalised over operand "
+             "order / mirrored operators / method-call form / `!`, guard sets closed under bool hoisting. Behaviour-preserving refactorings that must stay "
+             "silent are archived in /verif/neutral/kad (01-12 and x1-author-combinators.diff).")
 SELFTEST = [
     {"mutation": "tree before fix F10: record.expires = record.expires.or(expiration).min(expiration)", "caught_by": "merge/expiry merge table + lint/no Ord::min/max on Option<Instant>"},
     {"mutation": "tree before fix F11: (t - now).as_secs() as u32 without lower bound", "caught_by": "ttl/every encoded ttl of a record with an expiry is >= 1"},
@@ -29,7 +34,7 @@ SELFTEST = [
 ]
 
 EXPIRATION = r"^std::option::Option::map\(self\.record_ttl, closure:"
-ATOMS = [(r"^discr\(record\.expires\)$", "E"), (r"^discr\(std::option::Option::map\(self\.record_ttl, closure:", "X")]
+ATOMS = [(r"^discr\(#\d+\.expires\)$", "E"), (r"^discr\(std::option::Option::map\(self\.record_ttl, closure:", "X")]
 
 
 class Undecided(Exception):
@@ -47,7 +52,7 @@ def ev(b, e, asg, env, depth=0):
         raise Undecided("expression too deep")
     t = e[0]
     r = render(e)
-    if r == "record.expires":
+    if t == "field" and e[2] == "expires" and e[1][0] == "arg":
         return ("none",) if asg["E"] == "None" else ("some", frozenset(["peer"]), frozenset())
     if re.match(EXPIRATION, r) and e[0] == "call":
         return ("none",) if asg["X"] == "None" else ("some", frozenset(["local"]), frozenset())
@@ -100,7 +105,7 @@ def ev(b, e, asg, env, depth=0):
 
 
 def check(ctx):
-    prog = ctx.prog
+    prog = lk.canon(ctx)
     check_merge(ctx, prog)
     check_lint(ctx, prog)
     check_ttl(ctx, prog)
@@ -156,28 +161,30 @@ def check_merge(ctx, prog):
     for s in exps:
         cl = lib.closure_of(prog, b, b.site_expr(s))
         rs = [render(cl.site_expr(x)) for x in lk.ret_sites(cl)] if cl else []
-        ctx.ob("merge", "local expiration = now + exp_decrease(ttl, num_beyond_k)", rs == ["<web_time::Instant as std::ops::Add>::add(^now, libp2p_kad::behaviour::exp_decrease(ttl, ^num_beyond_k))"], s.loc(), str(rs))
-        t = R(b, s)
-        ctx.ob("merge", "`now` of the expiration is Instant::now()", "[web_time::Instant::now(), " in t, s.loc(), t[:160])
+        cexp = [c for c in mir.walk(b.site_expr(s)) if c[0] == "closure"]
+        rs = [render(lk.subst_upvars(cexp[0], cl.site_expr(x))) for x in lk.ret_sites(cl)] if cl and cexp else []
+        ok = len(rs) == 1 and re.match(r"^<web_time::Instant as std::ops::Add>::add\(web_time::Instant::now\(\), libp2p_kad::behaviour::exp_decrease\(#2, .*\)\)$", rs[0]) is not None
+        ctx.ob("merge", "local expiration = Instant::now() + exp_decrease(ttl, num_beyond_k)", ok, s.loc(), str(rs)[:300])
     ed = ctx.body(K, r"^libp2p_kad::behaviour::exp_decrease$")
     rs = [R(ed, s) for s in lk.ret_sites(ed)]
-    ctx.ob("merge", "exp_decrease never lengthens the ttl (right shift, 0 on overflow)", rs == ["web_time::Duration::from_secs(std::option::Option::unwrap_or(core::num::checked_shr(web_time::Duration::as_secs(ttl), exp), 0))"], lk.where(ed), str(rs))
+    ctx.ob("merge", "exp_decrease never lengthens the ttl (right shift, 0 on overflow)", rs == ["web_time::Duration::from_secs(std::option::Option::unwrap_or(core::num::checked_shr(web_time::Duration::as_secs(#1), #2), 0))"], lk.where(ed), str(rs))
     # ordering: merge before use
     puts = b.call_sites(r"record::store::RecordStore::put$|RecordStore>::put$")
     ctx.floor("merge", "store.put", puts, 1)
+    REC = R(b, stores[0]) and render(b.place_expr({"l": stores[0].stmt["p"]["l"]})) if stores else "?"
     for s in puts:
         ctx.ob("merge", "the record is stored only after its expiry was merged", bool(stores) and all(b.dominates(x.bb, s.bb) for x in stores), s.loc(), "the store to record.expires dominates store.put")
         a = render(b.site_expr(s)[2][1])
-        ctx.ob("merge", "the stored record is the merged record", a == "libp2p_kad::<record::Record as std::clone::Clone>::clone(record)", s.loc(), a)
+        ctx.ob("merge", "the stored record is the merged record", re.match(r"^libp2p_kad::<record::Record as std::clone::Clone>::clone\(#\d+\)$", a) is not None and a.endswith("(%s)" % REC), s.loc(), a)
     evs = [s for s in b.agg_sites(r"behaviour::InboundRequest$", "PutRecord") if "record: std::option::Option::Some" in R(b, s)]
     for s in evs:
-        ctx.ob("merge", "the record handed to the application (FilterBoth) carries the merged expiry", bool(stores) and all(b.dominates(x.bb, s.bb) for x in stores) and "Clone>::clone(record)" in R(b, s), s.loc(), R(b, s)[-160:])
+        ctx.ob("merge", "the record handed to the application (FilterBoth) carries the merged expiry", bool(stores) and all(b.dominates(x.bb, s.bb) for x in stores) and "Clone>::clone(%s)" % REC in R(b, s), s.loc(), R(b, s)[-160:])
     ctx.floor("merge", "FilterBoth event", evs, 1)
     ie = b.call_sites(r"record::Record::is_expired$")
     for s in ie:
         ctx.ob("merge", "expiry test uses the merged expiry", bool(stores) and all(b.dominates(x.bb, s.bb) for x in stores), s.loc(), "")
     for s in puts:
-        ctx.guarded("merge", "an already expired record is not stored", s, lambda c, r, l: l == "false" and r.startswith("libp2p_kad::record::Record::is_expired(record, "), "!record.is_expired(now)")
+        ctx.guarded("merge", "an already expired record is not stored", s, lambda c, r, l: l == "false" and r.startswith("libp2p_kad::record::Record::is_expired(%s, " % REC), "!record.is_expired(now)")
     callers = sorted({s.body.npath for s in prog.callers(K, r"record::store::RecordStore::put$|RecordStore>::put$") if "record::store::memory" not in s.body.npath})
     ctx.ob("merge", "records enter the store only via record_received (peers) and put_record (local API)", callers == ["libp2p_kad::behaviour::Behaviour::put_record", "libp2p_kad::behaviour::Behaviour::record_received"], msg=str(callers))
 
@@ -201,98 +208,21 @@ def check_lint(ctx, prog):
     ctx.ob("lint", "floor:min/max call sites inspected", n >= 5, nontrivial=False, msg=str(n))
 
 
-def ge1(cb, e, site_bb, depth=0):
-    """True iff expression e (a u32) is >= 1 on every path to site_bb."""
-    if depth > 8:
-        return False
-    if e[0] == "const" and isinstance(e[1], int):
-        return e[1] >= 1
-    if e[0] == "namedconst" and isinstance(e[2], int):
-        return e[2] >= 1
-    if e[0] == "call":
-        name = strip_generics(e[1])
-        if re.search(r"cmp::Ord::max$|cmp::max$", name):
-            return any(ge1(cb, a, site_bb, depth + 1) for a in e[2])
-        if re.search(r"cmp::Ord::clamp$", name) and len(e[2]) == 3:
-            return ge1(cb, e[2][1], site_bb, depth + 1)
-        if re.search(r"cmp::Ord::min$|cmp::min$", name):
-            return all(ge1(cb, a, site_bb, depth + 1) for a in e[2])
-        if re.search(r"num::NonZero::get$", name):
-            return True
-    if e[0] == "local":
-        ds = cb.defs.get(e[1], [])
-        if ds and all(d[0] == "stmt" for d in ds):
-            return all(ge1(cb, cb.rvalue_expr(d[3]), d[1], depth + 1) for d in ds)
-    # guarded by `e > 0` / `e != 0` / `e >= 1`
-    r = render(e)
-    for text, labels, _, cond in cb.guards_on_all_paths(site_bb):
-        m = re.match(r"^(Gt|Ne|Ge|Eq|Lt|Le)\((.*), (\d+)\)$", text)
-        if m and m.group(2) == r:
-            op, k = m.group(1), int(m.group(3))
-            if labels == frozenset(["true"]) and ((op in ("Gt", "Ne") and k == 0) or (op == "Ge" and k >= 1)):
-                return True
-            if labels == frozenset(["false"]) and ((op == "Eq" and k == 0) or (op == "Lt" and k == 1) or (op == "Le" and k == 0)):
-                return True
-    return False
-
-
 def check_ttl(ctx, prog):
-    b = ctx.body(K, r"^libp2p_kad::protocol::record_to_proto$")
-    W = lk.where(b)
-    ags = b.agg_sites(r"proto::dht_pb::Record$")
-    ctx.floor("ttl", "proto::Record construction", ags, 1, exact=True)
-    for s in ags:
-        f = dict(b.site_expr(s)[4])
-        t = render(f.get("ttl", ("unknown", "?")))
-        m = re.match(r"^std::option::Option::unwrap_or\(std::option::Option::map\(record\.expires, closure:[^\[]*\[\]\), 0\)$", t)
-        ctx.ob("ttl", "encoded ttl = expires.map(remaining seconds).unwrap_or(0)", m is not None, s.loc(), t[:200])
-        cl = lib.closure_of(prog, b, f["ttl"]) if "ttl" in f else None
-        if cl is None:
-            ctx.ob("ttl", "ttl closure found", False, s.loc(), "")
-            continue
-        rs = lk.ret_sites(cl)
-        ctx.floor("ttl", "ttl closure results", rs, 1)
-        for x in rs:
-            e = cl.site_expr(x)
-            ok = ge1(cl, e, x.bb)
-            ctx.ob("ttl", "every encoded ttl of a record with an expiry is >= 1", ok, x.loc(),
-                   ("value %s is a constant >= 1, max(_, 1), or on a > 0 edge" if ok else "value %s can be 0 (e.g. a remaining lifetime below one second, or a u32 truncation), and 0 means 'does not expire'") % render(e)[:200])
-            leaves = [c for c in mir.calls_in(e, r"Instant as std::ops::Sub>::sub$|Instant::duration_since$|saturating_duration_since$|checked_duration_since$")]
-            if leaves:
-                ctx.ob("ttl", "remaining lifetime = expires - now", all(render(c[2][0]) == "t" and render(c[2][1]) == "web_time::Instant::now()" for c in leaves), x.loc(), str([render(c)[:80] for c in leaves]))
-            adds = [c for c in mir.calls_in(e, r"ops::Add|ops::Mul|checked_add|saturating_add|checked_mul")]
-            ctx.ob("ttl", "the encoded lifetime is never lengthened", not adds, x.loc(), str([render(c)[:60] for c in adds]))
-        pv = render(f.get("value", ("unknown", "?")))
-        ctx.ob("ttl", "value and key are the record's own", pv == "record.value" and render(f.get("key", ("unknown", "?"))) == "libp2p_kad::record::Key::to_vec(record.key)", s.loc(), pv)
-    who = sorted({x.npath for x in prog.bodies(K) if x.agg_sites(r"proto::dht_pb::Record$") and "dht_pb" not in x.npath})
-    ctx.ob("ttl", "proto::Record is built only by record_to_proto (and the PUT_VALUE acknowledgement)", who in (["libp2p_kad::protocol::record_to_proto"], ["libp2p_kad::protocol::record_to_proto", "libp2p_kad::protocol::resp_msg_to_proto"]), msg=str(who))
-    if "libp2p_kad::protocol::resp_msg_to_proto" in who:
-        rp = ctx.body(K, r"^libp2p_kad::protocol::resp_msg_to_proto$")
-        for s in rp.agg_sites(r"proto::dht_pb::Record$"):
-            ctx.guarded("ttl", "the only expiry-less proto::Record is the PUT_VALUE acknowledgement", s, lambda c, r, l: l == "PutValue" and r == "discr(kad_msg)", "KadResponseMsg::PutValue arm")
-        a = prog.adt(K, r"protocol::KadResponseMsg$")
-        flds = [[f["n"] for f in v["fields"]] for v in a["variants"] if v["name"] == "PutValue"]
-        ctx.ob("ttl", "the PUT_VALUE acknowledgement carries no expiry to lose (fields key, value)", flds == [["key", "value"]], msg=str(flds))
-        dp = ctx.body(K, r"^libp2p_kad::protocol::proto_to_resp_msg$")
-        ags = [R(dp, s) for s in dp.agg_sites(r"protocol::KadResponseMsg$", "PutValue")]
-        ctx.ob("ttl", "the decoder of the acknowledgement ignores ttl", len(ags) == 1 and "ttl" not in ags[0] and "record_from_proto" not in ags[0], lk.where(dp), str(ags)[:240])
-    # decode side
-    d = ctx.body(K, r"^libp2p_kad::protocol::record_from_proto$")
-    l = lib.local_by_name(d, "expires")
-    tab = {}
-    for df in d.defs.get(l, []):
-        if df[0] != "stmt":
-            tab["call"] = "?"
-            continue
-        gs = {g[0]: sorted(g[1]) for g in d.guards_on_all_paths(df[1])}
-        key = None
-        for k, v in gs.items():
-            if re.match(r"^(Gt|Ne)\(record\.ttl, 0\)$", k):
-                key = v[0]
-            elif re.match(r"^Eq\(record\.ttl, 0\)$", k):
-                key = "false" if v[0] == "true" else "true"
-        tab[key] = render(d.rvalue_expr(df[3]))
-    ok = tab.get("false") == "std::option::Option::None{}" and (tab.get("true") or "").startswith("std::option::Option::Some{0: <web_time::Instant as std::ops::Add>::add(web_time::Instant::now(), web_time::Duration::from_secs((record.ttl as u64)))") and len(tab) == 2
-    ctx.ob("ttl", "decode: no expiry only for ttl == 0", ok, lk.where(d), str(tab)[:300])
-    ags = [R(d, s) for s in d.agg_sites(r"^libp2p_kad::record::Record$")]
-    ctx.ob("ttl", "decode: the record carries the decoded expiry", len(ags) == 1 and "expires: expires" in ags[0], lk.where(d), str(ags)[:200])
+    lk.record_ttl_clauses(ctx, prog, "ttl")
+
+# thorough-tier sensitivity self-test (vrules/selftest.py): one-edit variants of the source that break the property
+MUTANTS = [
+    {"name": 'merge: max instead of min', "file": 'protocols/kad/src/behaviour.rs',
+     "find": '(Some(received), Some(local)) => Some(received.min(local)),',
+     "replace": '(Some(received), Some(local)) => Some(received.max(local)),',
+     "expect": '^merge/expiry merge table', "why": 'lifetime extended'},
+    {"name": 'ttl clamp to 0', "file": 'protocols/kad/src/protocol.rs',
+     "find": '                        .max(1)\n',
+     "replace": '                        .max(0)\n',
+     "expect": '^ttl/every encoded ttl', "why": 'sub-second lifetime sent as no expiry'},
+    {"name": 'decode: ttl > 1', "file": 'protocols/kad/src/protocol.rs',
+     "find": 'let expires = if record.ttl > 0 {',
+     "replace": 'let expires = if record.ttl > 1 {',
+     "expect": '^ttl/decode: no expiry only for ttl == 0', "why": 'ttl 1 decoded as no expiry'},
+]
